@@ -25,6 +25,11 @@ def base_grids():
                        (('str', '{"a":1}'), ('str', '"x"')), (N.REMOVE, ('time', 12, 34, 0, 0))]))
     B.append(N.mkgrid('2.0', [('r', N.REMOVE)], [('a', []), ('b', [])],
                       [(('str', 'n:1'), ('str', 'a:b')), (N.REMOVE, ('time', 1, 2, 0, 0)), (('str', 'x'), ('uri', 'u:v')), (('ref', 'a', 'x y'), ('bin', 'text/plain'))]))
+    # text that CONTAINS another kind's spelling: after a line break, or further in (prefix matching must be anchored at the start)
+    B.append(N.mkgrid('2.0', [('m', ('str', 'see\nd:2020-02-29'))], [('a', [('cm', ('str', 'note\nm:'))]), ('b', [])],
+                      [(('str', u'setpoints\nn:21.5 \xb0C'), ('str', 'menu:lunch')), (('str', 'Web: http://h/p'), ('str', 'loc:1.5,2.5')),
+                       (('str', 'x\nt:2020-01-01T00:00:00Z UTC'), ('str', 'a\nh:12:00:00')), (('str', 'q r:abc'), ('uri', 'x\nn:5')),
+                       (('bin', 'text/plain; menu:1'), ('str', 'k\nz:')), (('str', 'C(1,2)\nc:1.0,2.0'), ('ref', 'a', 'd\nn:1'))]))
     # every text-like catalogue payload (backslashes before URI delimiters, UNC paths, look-alikes ...) in a cell
     from ref import catalogue as CAT
     for kind in ('uri', 'str', 'ref', 'bin', 'xstr'):
